@@ -71,6 +71,10 @@ def subst_ir(ov, h):
         return ['tuplefixed', [rec(x) for x in h[1]]]
     if t == 'annot':
         return ['annot', rec(h[1]), h[2]]
+    if t in ('meta', 'newtype', 'tvar_bound'):
+        return [t, rec(h[1])]
+    if t == 'tvar_constr':
+        return [t, [rec(x) for x in h[1]]]
     if t == 'type':
         out = []
         for c in h[1]:
@@ -274,6 +278,40 @@ def gen_wide_cases(rng, n, entries):
     return cases[:n]
 
 
+def gen_transparent_cases(rng, n, entries):
+    """a key that only comes to light after beartype has reduced a transparent hint around it: Annotated[K, metadata that is no
+    validator], NewType('N', K), TypeVar('T', bound=K); under the tower or a user override; at the root and below containers"""
+    cases = []
+    while len(cases) < n:
+        tower = rng.random() < 0.5
+        if tower:
+            a = ['cls', rng.choice(['float', 'complex'])]
+            ov = []
+        else:
+            a = ['cls', rng.choice(['str', 'UserA', 'bytes', 'float'])]
+            others = [['cls', c] for c in ['UserB', 'UserC', 'bool', 'int'] if ['cls', c] != a]
+            rng.shuffle(others)
+            ov = [[a, rng.choice([['union', [a, others[0]]], others[0], ['union', [a, others[0], others[1]]]])]]
+        full = ov + (TOWER if tower else [])
+        inner = rng.choice([['meta', a], ['meta', a], ['newtype', a], ['tvar_bound', a]])
+        root = rng.choice([inner, inner, ['optional', inner], ['union', [inner, ['cls', 'NoneType']]]])
+        wrap = rng.choice([lambda x: x, lambda x: x, lambda x: ['cont', 'List', x], lambda x: ['map', 'Dict', ['cls', 'str'], x],
+                           lambda x: ['tuplefixed', [['cls', 'int'], x]]])
+        h = wrap(root)
+        hand = subst_ir(full, h)
+        vals = []
+        try:
+            vals = [IR.gen_sat(rng, hand, sizes=(1, 2)) for _ in range(3)] + [IR.gen_sat(rng, h, sizes=(1, 2))]
+            vals.append(IR.mutate(rng, vals[0]))
+        except Exception:  # noqa
+            continue
+        for v in vals:
+            if IR.valid_value(v):
+                cases.append({'hint': h, 'value': v, 'draws': sorted({0, 1, rng.getrandbits(32)}), 'is_random': rng.random() < 0.8,
+                              'entries': list(entries), 'conf': {'tower': tower, 'ov': ov}, 'stable': True, 'hand_hint': hand})
+    return cases[:n]
+
+
 VIOLATION_SETTINGS = [
     {'violation_type': 'UserViolation'},
     {'violation_door_type': 'UserViolation', 'violation_param_type': 'UserParamViolation'},
@@ -322,6 +360,7 @@ def run(ctx):
         n = {'quick': 420, 'thorough': 12000}[ctx.tier]
         cases = gen_cases(ctx.rng, n, 4, ('is_bearable', 'die_if_unbearable', 'param'))
         cases += gen_wide_cases(ctx.rng, max(60, n // 8), ('is_bearable', 'die_if_unbearable', 'param'))
+        cases += gen_transparent_cases(ctx.rng, max(60, n // 8), ('is_bearable', 'die_if_unbearable', 'param'))
 
         def gen(rng, k, depth, entries=None):
             return cases
